@@ -272,7 +272,9 @@ def canonicalise_renamed_functions(raw, vocab_sigs, strip_lt, log=None):
     trait impl) exactly one function outside the vocabulary has the identical signature -> it gets the vocabulary
     name back.  Done before the inlining of non-vocabulary functions."""
     import re as _re
-    cur = {strip_lt(b["path"]): strip_lt(b.get("sig") or "") for b in raw["bodies"] if b.get("kind") in ("Fn", "AssocFn")}
+    nb = lambda s: _re.sub(r"^for(?:<[^>]*>)? ", "", s)  # the binder of late-bound lifetimes is noise after erasure
+    cur = {strip_lt(b["path"]): nb(strip_lt(b.get("sig") or "")) for b in raw["bodies"] if b.get("kind") in ("Fn", "AssocFn")}
+    vocab_sigs = {p: nb(s) for p, s in vocab_sigs.items()}
     lost = {p: s for p, s in vocab_sigs.items() if p not in cur}
     new = {p: s for p, s in cur.items() if p not in vocab_sigs}
     ren = {}
@@ -900,4 +902,49 @@ def desugar_iterator_adaptors(raw, strip_lt, log=None):
         raw["bodies"] = [b for b in bodies if strip_lt(b["path"]) not in gone and not any(strip_lt(b["path"]).startswith(g + "::") for g in gone)]
     if log and done:
         log("desugared %d iterator adaptor call(s)" % len(done))
+    return done
+
+
+def desugar_memos(raw, strip_lt, log=None):
+    """`S.get_or_init(f)` on a `static S: OnceLock<T>` with a parameterless function item f is a memo of the constant
+    f(): the call is replaced by `f()` (and a reference to its result), so that code which computes a table on every
+    call and code which caches it once per process reach the rules alike.  That statics are used in no other way is
+    checked by API-STATICS on the calls this pass leaves alone; the reference tree's own memo sites are left as they
+    are (rxv/vocabulary_adaptors.json, kind "memo")."""
+    if raw.get("crate") != "regexml":
+        return []
+    vp = os.path.join(os.path.dirname(os.path.abspath(__file__)), "vocabulary_adaptors.json")
+    reference = json.load(open(vp)) if os.path.exists(vp) else {}
+    by_path = {}
+    for b in raw["bodies"]:
+        by_path.setdefault(strip_lt(b["path"]), b)
+    done = []
+    for c in raw["bodies"]:
+        if reference.get(strip_lt(c["path"]).split("::{closure")[0], {}).get("memo"):
+            continue
+        for bi in range(len(c["blocks"])):
+            blk = c["blocks"][bi]
+            t = blk["term"]
+            if t["k"] != "call" or blk.get("cleanup") or t.get("t") is None:
+                continue
+            f = t.get("func", {})
+            fn = f.get("fn") if f.get("k") == "const" else None
+            if not fn or fn.get("def") != "std::sync::OnceLock::<T>::get_or_init" or len(t["args"]) != 2:
+                continue
+            ini = t["args"][1]
+            if ini.get("k") != "const" or "fn" not in ini:
+                continue
+            target = by_path.get(strip_lt(ini["fn"].get("res", ini["fn"]["def"])))
+            if target is None or target["argc"] != 0 or t["dest"]["p"]:
+                continue
+            L = c["locals"]
+            tmp = len(L)
+            L.append(_local(target["locals"][0]["ty"]))
+            n0 = len(c["blocks"])
+            dest, after = t["dest"], t["t"]
+            blk["term"] = {"k": "call", "func": copy.deepcopy(ini), "args": [], "dest": {"l": tmp, "p": []}, "t": n0, "unwind": t.get("unwind"), "line": t.get("line"), "exp": False}
+            c["blocks"].append({"stmts": [{"k": "assign", "place": copy.deepcopy(dest), "rv": {"k": "ref", "mut": False, "place": {"l": tmp, "p": []}}, "line": t.get("line"), "exp": False}], "term": {"k": "goto", "t": after}, "cleanup": False})
+            done.append((strip_lt(c["path"]), strip_lt(ini["fn"].get("res", ini["fn"]["def"]))))
+    if log and done:
+        log("memo sites read as calls: %s" % done)
     return done
